@@ -104,7 +104,89 @@ type c10Exec struct {
 	prog     int // index of the compiled program used
 }
 
+// c10NilScripts: executions that are handed no bindings at all (a machine's first step
+// from a state without bindings, or a host calling Exec(ctx, nil, ...)).  A polluter
+// writes into whatever _.bindings is; a probe reports what it finds there.
+var c10NilPolluter = `var b = _.bindings; if (b) { try { b.leak = "L"; b.nested = {"n": 1}; } catch (e) {} } _.out({"polluter": true}); return b || {"fresh": true};`
+var c10NilProbe = `var b = _.bindings; var ks = []; if (b) { for (var k in b) { ks.push(k); } } ks.sort(); return {"found": ks.join(",")};`
+
+func runC10Nil(c *sim.Ctx, t *testing.T, concurrent bool) {
+	interp := ecmascript.NewInterpreter()
+	ctx := context.Background()
+	nexec := 2 + c.Intn(6, "nexec")
+	probe := make([]bool, nexec)
+	for i := range probe {
+		probe[i] = c.Bool("probe")
+	}
+	probe[nexec-1] = true
+	got := make([]string, nexec)
+	kept := make([]*core.Execution, nexec)
+	one := func(i int) {
+		src := c10NilPolluter
+		if probe[i] {
+			src = c10NilProbe
+		}
+		exe, err := interp.Exec(ctx, nil, core.StepProps{"mid": "m1"}, src, nil)
+		if err != nil {
+			got[i] = "error: " + err.Error()
+			return
+		}
+		kept[i] = exe
+		got[i] = ref.Canon(map[string]interface{}(exe.Bs))
+	}
+	if concurrent {
+		c.PermuteOff = true
+		sim.Bubble(c, t, func(s *sim.Sched) {
+			s.MaxSteps = 4000
+			for i := 0; i < nexec; i++ {
+				i := i
+				s.Go(fmt.Sprintf("x%d", i), func(tk *sim.Task) { one(i) })
+			}
+			s.Run()
+			s.Drain(300)
+		})
+	} else {
+		sim.Install(c)
+		for i := 0; i < nexec; i++ {
+			if c.Guard("Exec", func() { one(i) }) {
+				sim.Uninstall()
+				return
+			}
+		}
+		sim.Uninstall()
+	}
+	shape := "nil:"
+	for i := range got {
+		c.Count("executions")
+		c.Count("executions_without_bindings")
+		if probe[i] {
+			shape += "p"
+			if got[i] != `{"found":""}` {
+				c.Violate("isolation:probe-sees:bindings", "probe %d, executed without bindings (plan %v, concurrent=%v), found %s in _.bindings; alone it finds nothing", i, probe, concurrent, got[i])
+			}
+		} else {
+			shape += "x"
+			// what an earlier execution returned stays what it was
+			if kept[i] != nil {
+				if now := ref.Canon(map[string]interface{}(kept[i].Bs)); now != got[i] {
+					c.Violate("isolation:result-changed-later", "the bindings execution %d returned were %s and are %s after later executions", i, got[i], now)
+				}
+			}
+		}
+	}
+	c.MixHash(shape)
+	c.Path = shape + fmt.Sprint(concurrent)
+	if c.Sched != nil {
+		c.Path += fmt.Sprintf("%016x", c.Sched.Hash)
+	}
+	c.Sample = map[string]interface{}{"plan": shape, "polluter": c10NilPolluter, "probe": c10NilProbe, "concurrent": concurrent}
+}
+
 func runC10(c *sim.Ctx, t *testing.T, concurrent bool) {
+	if c.Chance(1, 8, "nobindings") {
+		runC10Nil(c, t, concurrent)
+		return
+	}
 	interp := ecmascript.NewInterpreter()
 	ctx := context.Background()
 	// programs: one probe, 1-3 polluters
